@@ -18,7 +18,7 @@ MULTI_ON = ["IPPO"]
 ALL_ALGOS = SINGLE_DISCRETE + SINGLE_CONT + ONPOLICY + BANDITS + MULTI_OFF + MULTI_ON
 VALUE_BASED = SINGLE_DISCRETE + SINGLE_CONT + MULTI_OFF
 
-AGENT_IDS = ["a_0", "a_1", "b_0"]  # two homogeneous agents + one other
+AGENT_IDS = ["a_1", "a_0", "b_0"]  # two homogeneous agents + one other; deliberately NOT in lexicographic order (gymnasium Dict spaces sort their keys: code that follows the space instead of agent_ids mixes agents up)
 
 
 def seed_all(seed: int):
